@@ -24,7 +24,7 @@ func init() {
 			"(K5) every loop that is not a range/counted loop consumes input through a checked reader whose failure leaves the loop, or performs a blocking round trip (tabled).",
 		Residue:   "allocation amplification (make/Grow sized by peer-declared counts: memory, not a panic); panics inside google.golang.org/protobuf, golang/snappy and modernc b-tree (trusted); 32-bit int overflow (64-bit int assumed)",
 		Technique: "decode-surface obligation enumeration over SSA + linear-fact bounds prover (no solver), nil-guard dominance, reasoned tables",
-		Run:       runC11,
+		Run:       runC11All,
 	})
 }
 
@@ -455,6 +455,14 @@ func k3Discharge(p *kit.Prog, f *ssa.Function, ta *ssa.TypeAssert) (string, bool
 			if call, ok := ta.X.(*ssa.Call); ok && strings.HasSuffix(kit.CalleeName(call), "multi).get") && all && n >= 2 {
 				return fmt.Sprintf("element of a multi: all %d Batchable implementations implement the asserted interface", n), true
 			}
+			// the same element read by indexing m.calls directly
+			if l, ok := ta.X.(*ssa.UnOp); ok && all && n >= 2 {
+				if ia, ok := l.X.(*ssa.IndexAddr); ok {
+					if callsF := p.Field("region", "multi", "calls"); callsF != nil && isLoadOfField(ia.X, callsF) {
+						return fmt.Sprintf("element of a multi: all %d Batchable implementations implement the asserted interface", n), true
+					}
+				}
+			}
 		}
 	}
 	return "asserted operand " + kit.Path(ta.X), false
@@ -795,6 +803,11 @@ func k5Loops(c *kit.Ctx, eng *bounds.Engine, f *ssa.Function) {
 				why, good = w, true
 			}
 		}
+		if !good {
+			if w, g := sliceGrowsToBound(cyc, inCyc); g {
+				why, good = w, true
+			}
+		}
 		pos := firstPos(cyc[len(cyc)-1])
 		if good {
 			c.OK(f, "loop", pos, why)
@@ -1108,3 +1121,82 @@ func constantString(k *ssa.Const) string {
 }
 
 func strconvUnquote(s string) (string, error) { return strconv.Unquote(s) }
+
+// runC11All: the rules of C11 plus the "orderly way of C03" its statement refers to.
+func runC11All(c *kit.Ctx) {
+	runC11(c)
+	if !c.Frozen {
+		embed(c, "K6", "an unusable stream fails the connection in the orderly way: a frame or header that cannot be decoded is a connection-level error and every outstanding call is completed (the rules of C03, run as one rule here)", 30, runC03)
+	}
+}
+
+// sliceGrowsToBound: the loop goes on while len(s) < N, N is not changed in the loop, and every way round appends
+// at least one element to s: at most N iterations (for cells := make(.., 0, n); len(cells) < n; cells = append(cells, c)).
+func sliceGrowsToBound(cyc []*ssa.BasicBlock, inCyc map[*ssa.BasicBlock]bool) (string, bool) {
+	for _, b := range cyc {
+		if len(b.Instrs) == 0 {
+			continue
+		}
+		iff, ok := b.Instrs[len(b.Instrs)-1].(*ssa.If)
+		if !ok {
+			continue
+		}
+		// one successor leaves the cycle
+		var stayOnTrue bool
+		switch {
+		case inCyc[b.Succs[0]] && !inCyc[b.Succs[1]]:
+			stayOnTrue = true
+		case !inCyc[b.Succs[0]] && inCyc[b.Succs[1]]:
+			stayOnTrue = false
+		default:
+			continue
+		}
+		cmp, ok := kit.CanonCmp(iff.Cond, stayOnTrue)
+		if !ok || cmp.Bytes {
+			continue
+		}
+		x, y, op := cmp.X, cmp.Y, cmp.Op
+		if kit.LenOf(x) == nil && kit.LenOf(y) != nil {
+			x, y = y, x
+			switch op {
+			case token.GTR:
+				op = token.LSS
+			case token.GEQ:
+				op = token.LEQ
+			default:
+				continue
+			}
+		}
+		if op != token.LSS && op != token.LEQ && op != token.NEQ {
+			continue
+		}
+		ph, ok := kit.Strip(kit.LenOf(x)).(*ssa.Phi)
+		if !ok || !inCyc[ph.Block()] {
+			continue
+		}
+		// the bound is defined outside the cycle
+		if in, ok := kit.Strip(y).(ssa.Instruction); ok && in.Block() != nil && inCyc[in.Block()] {
+			if cv, isCv := kit.Strip(y).(*ssa.Convert); !isCv {
+				continue
+			} else if d, ok := cv.X.(ssa.Instruction); ok && d.Block() != nil && inCyc[d.Block()] {
+				continue
+			}
+		}
+		grows := true
+		n := 0
+		for k, e := range ph.Edges {
+			if !inCyc[ph.Block().Preds[k]] {
+				continue
+			}
+			n++
+			call, ok := kit.Strip(e).(*ssa.Call)
+			if !ok || kit.CalleeName(call) != "builtin.append" || kit.Strip(call.Call.Args[0]) != ssa.Value(ph) || len(elemsOfVariadic(call.Call.Args[1])) < 1 {
+				grows = false
+			}
+		}
+		if grows && n > 0 {
+			return "the loop runs while len(s) is below a bound fixed before it and every iteration appends to s", true
+		}
+	}
+	return "", false
+}
